@@ -40,6 +40,13 @@ func DeepCopy(node Node, document *Document) Node {
 			family = fam
 		}
 
+		// A husband, wife or child node that is not below a family node (it is
+		// copied on its own, or the file nests it under some other record)
+		// still belongs to a family.
+		if familyNoder, ok := node.(FamilyNoder); ok && family == nil {
+			family = familyNoder.Family()
+		}
+
 		return shallowCopyNode(node, document, family), true
 	})
 }
